@@ -34,6 +34,18 @@ def streams : List (String × Stream) := ([] : List (String × Stream))
   |>.cons ("plan", PlanStream.stream)
   |>.cons ("planlim", PlanStream.stream)
   |>.cons ("planwhere", PlanStream.stream)
+import Nervus.Driver.Value
+import Nervus.Driver.Sort
+import Nervus.Driver.Agg
+open Nervus.Driver
+
+/-- stream registry: one line per stream (kept one-per-line so that merges are unions) -/
+def streams : List (String × Stream) := [
+  ("okey", OKeyStream.stream),
+  ("value", ValueStream.stream),
+  ("sort", SortStream.stream),
+  ("agg", AggStream.stream)
+]
 
 def main (args : List String) : IO UInt32 := do
   match args with
